@@ -20,6 +20,7 @@
 //                                         the order the generator predicts for shuffle_indexes_ (own mt19937 + std::shuffle)
 //                                         -> ok / perm-differs <actual> / err:check
 //   shrec / shdrain                     NextRecord / NextRecord to the end          -> rec <hex> | false / recs <hex>* end
+//   shdrainc                            NextChunk to the end, chunks cut into records -> recs <hex>* end
 //   shbf <perm> / shreset <k> <n>       BeforeFirst (predicted new order) / ResetPartition -> ok / perm-differs <actual> / err:check
 //   <state> = offBegin offEnd offCurr filePtr fpos overflowLen chunkBegin chunkRemaining dataWords bufWords
 //             [w wrapperChunkNull wBegin wRemaining wDataWords wBufWords]
@@ -185,6 +186,7 @@ struct SplitHarness : vh::Harness {
     return u;
   }
   std::unique_ptr<InputSplit> shuffle;   // the InputSplitShuffle under test (ops sh*)
+  bool sh_text = true;
   // does shuffle_indexes_ hold the order the generator predicted?
   std::string perm_check(const std::string &want) {
     auto *o = static_cast<dmlc::InputSplitShuffle *>(shuffle.get());
@@ -330,13 +332,14 @@ struct SplitHarness : vh::Harness {
       shuffle.reset();
       unsigned k = strtoul(w[2].c_str(), nullptr, 10), n = strtoul(w[3].c_str(), nullptr, 10), m = strtoul(w[4].c_str(), nullptr, 10);
       try {
+        sh_text = w[1] == "text";
         shuffle.reset(dmlc::InputSplitShuffle::Create(real_uri().c_str(), k, n, w[1].c_str(), m, atoi(w[7].c_str())));
       } catch (const dmlc::Error &) {
         return "err:check";
       }
       return perm_check(w[6]);
     }
-    if (op == "shrec" || op == "shdrain" || op == "shbf" || op == "shreset") {
+    if (op == "shrec" || op == "shdrain" || op == "shdrainc" || op == "shbf" || op == "shreset") {
       if (!shuffle) return "no-object";
       try {
         if (op == "shrec") {
@@ -350,6 +353,37 @@ struct SplitHarness : vh::Harness {
           size_t cnt = 0;
           while (shuffle->NextRecord(&b)) {
             res += " " + vh::hex(std::string(static_cast<const char *>(b.dptr), b.size));
+            if (++cnt > 20000) return "runaway";
+          }
+          return res + " end";
+        }
+        if (op == "shdrainc") {
+          // the same drain through NextChunk (InputSplitShuffle::NextChunk moves through the shuffle parts itself); the
+          // chunks are cut into records here: lines for text, RecordIOChunkReader(chunk, 0, 1) for recordio
+          std::string res = "recs";
+          InputSplit::Blob b;
+          size_t cnt = 0;
+          bool is_text = sh_text;
+          while (shuffle->NextChunk(&b)) {
+            if (is_text) {
+              // the byte ranges NextRecord hands out for this chunk: a line with the end-of-line run after it, the last
+              // byte overwritten with NUL unless the range ends the chunk (LineSplitter writes its terminator there)
+              std::string ck(static_cast<const char *>(b.dptr), b.size);
+              size_t i = 0;
+              while (i < ck.size()) {
+                size_t j = i;
+                while (j < ck.size() && !is_eol(ck[j])) ++j;
+                while (j < ck.size() && is_eol(ck[j])) ++j;
+                std::string r = ck.substr(i, j - i);
+                if (j != ck.size()) r[r.size() - 1] = '\0';
+                res += " " + vh::hex(r);
+                i = j;
+              }
+            } else {
+              dmlc::RecordIOChunkReader cr(b, 0, 1);
+              InputSplit::Blob r;
+              while (cr.NextRecord(&r)) res += " " + vh::hex(std::string(static_cast<const char *>(r.dptr), r.size));
+            }
             if (++cnt > 20000) return "runaway";
           }
           return res + " end";
@@ -729,7 +763,7 @@ struct SplitHarness : vh::Harness {
       if (w[0] == "shrec") {
         if (r == "false") complete = true;
         else seg.insert(vh::unhex(r.substr(4)));
-      } else if (w[0] == "shdrain") {
+      } else if (w[0] == "shdrain" || w[0] == "shdrainc") {
         auto t = vh::split_ws(r);
         for (size_t j = 1; j + 1 < t.size(); ++j) seg.insert(t[j] == "-" ? std::string() : vh::unhex(t[j]));
         complete = true;
@@ -1380,7 +1414,7 @@ struct Gen {
       for (size_t j = 0; j < len; ++j) {
         switch (rng.below(8)) {
           case 0: case 1: case 2: case 3: c.ops.push_back("shrec"); break;
-          case 4: c.ops.push_back("shdrain"); break;
+          case 4: c.ops.push_back(rng.chance(1, 2) ? "shdrain" : "shdrainc"); break;
           case 5:
             if (m > 1) std::shuffle(order.begin(), order.end(), eng);
             c.ops.push_back("shbf " + show_order());
@@ -1388,7 +1422,7 @@ struct Gen {
           default: c.ops.push_back("shreset " + std::to_string(rng.below(n)) + " " + std::to_string(n));
         }
       }
-      c.ops.push_back("shdrain");
+      c.ops.push_back(rng.chance(1, 3) ? "shdrainc" : "shdrain");
       R.run_case(c);
     }
   }
